@@ -1,4 +1,4 @@
 (* name -> extracted entry points *)
 open Gfext
-let gens = [ ("C05", c05_gen); ("C03", c03_gen) ]
-let runs = [ ("C05", c05_run); ("C03", c03_run) ]
+let gens = [ ("C05", c05_gen); ("C03", c03_gen); ("C06", c06_gen) ]
+let runs = [ ("C05", c05_run); ("C03", c03_run); ("C06", c06_run) ]
